@@ -103,9 +103,15 @@ RunV(s, dl) ==
 Expired(dl) == dl.k = "ms" /\ dl.ms = 0
 RunX(s, dl) == LET v == RunV(s, dl) IN
                IF Expired(dl) THEN [v EXCEPT !.ran = @ \cup {0}, !.codes = @ \cup {4}] ELSE v
-ServeV(s) == IF s.enc = "unknown" THEN Rejected(12)
+\* "GZIP": a name that differs from a registered one in letter case only.  The handler either does not know it
+\* (Rejected(12), see Alternative) or knows it for what it is -- then the messages are decompressed like any gzip
+\* message.  It never half-knows it.
+AsGzip(s) == IF s.enc = "GZIP" THEN [s EXCEPT !.enc = "gzip"] ELSE s
+ServeV(s0) == LET s == AsGzip(s0) IN
+             IF s.enc = "unknown" THEN Rejected(12)
              ELSE IF ~TimeoutOK(s) THEN Rejected(3)
              ELSE RunX(s, Deadline(s))
+Alternative(s) == IF s.enc = "GZIP" THEN {Rejected(12)} ELSE {}
 Serve == /\ pc = "serve" /\ r' = ServeV(sc) /\ pc' = "done" /\ UNCHANGED sc
 Next == G505 \/ G405 \/ G415 \/ Serve
 
